@@ -98,7 +98,7 @@ FAMILIES = {
 # which kinds of H2 failure count for which property
 KINDS = {
     "C01": {"ledger", "O"}, "C02": {"O"}, "C03": {"O", "K", "HBL"}, "C04": {"corrupt", "A", "HB", "ledger", "O"}, "C05": {"ledger", "O"},
-    "C06": {"stuck", "A"}, "C07": {"A", "HB", "M"}, "C08": {"O"}, "C09": {"O", "A", "stuck", "ledger"}, "C10": {"O"},
+    "C06": {"stuck", "A"}, "C07": {"A", "HB", "M", "S"}, "C08": {"O"}, "C09": {"O", "A", "stuck", "ledger"}, "C10": {"O"},
     "C11": {"O", "stuck"}, "C12": {"O", "K"}, "C13": {"O", "A", "ledger", "stuck", "K", "deadline"}, "C14": {"O", "K", "stuck", "RT"},
     "C15": {"O", "A", "ledger", "stuck", "HB"}, "C16": {"O", "A", "stuck"}, "C17": {"M", "HBL", "RT"}, "C19": {"O", "K"},
 }
@@ -365,7 +365,7 @@ def run_batch(jobs, par=4, timeout=300):
             cov.update(line.split()[1:])
         if line.startswith("X "):
             i += 1
-        elif i >= 0 and i < len(results) and line[:2] in ("A ", "M ", "K ", "O "):
+        elif i >= 0 and i < len(results) and line[:2] in ("A ", "M ", "K ", "O ", "S "):
             results[i][5][line[0]] = line[2:]
     COVERED.update(cov)
     return results
@@ -491,7 +491,7 @@ def explore(prop, tier, seed):
                 srcs.add((m.group(3), m.group(10)))
         distinct.add(hashlib.md5("\n".join(re.sub(r"^\d+ ", "", l) for l in lines).encode()).hexdigest())
         found = judge(pid, cap, spec, lines, threads)
-        for tag in ("A", "M", "K", "O"):
+        for tag in ("A", "M", "K", "O", "S"):
             v = mv.get(tag, "")
             if v.startswith("reject"):
                 found.append((tag, v[7:]))
